@@ -24,7 +24,9 @@ LEVEL_NOTE = (
     "== 6 + calculated_length == octets 4..5; header octets 06 10 + service type; from_knx returns the same class, an equal body, rest b''. "
     "Not judged (recorded): ConnectResponse with an error status compares only channel and status (the parser skips HPAI/CRD on purpose, "
     "repository tests pin that); values xknx pads to an even length on the wire (odd tunnelling-feature data, odd DIB data) - the wire "
-    "value is the padded one; an extended CRI carrying address 0.0.0."
+    "value is the padded one; a device name ending in NUL (indistinguishable from the field padding); an extended CRI carrying address 0.0.0. "
+    "Device names with NULs / control characters elsewhere in the 30-octet field are judged: the encoder puts them on the wire unchanged "
+    "(a strictly NUL-terminated reading of the specification would end the name at the first NUL; xknx treats the field as padded)."
 )
 SHARDS = {"quick": 1, "thorough": 16}
 TIMEOUT = {"quick": 300, "thorough": 3000}
@@ -133,9 +135,9 @@ def run(ctx: Any) -> None:
                 try:
                     raw = g.frame_bytes(body)
                     back = KNXIPFrame.from_knx(raw)[0].body
-                    ctx.count("recorded_odd_length_" + ("equal" if g.body_equal(back, body) else "padded_not_equal"))
+                    ctx.count("recorded_" + label + ("_equal" if g.body_equal(back, body) else "_not_equal"))
                 except Exception:  # noqa: BLE001
-                    ctx.count("recorded_odd_length_raises")
+                    ctx.count("recorded_" + label + "_raises")
 
 
 def replay(ctx: Any, witness: dict[str, Any]) -> None:
